@@ -487,6 +487,24 @@ func (la *lockAnalysis) summary(fn *ssa.Function) *LockSummary {
 	return s
 }
 
+// unwrapBound replaces a synthetic bound-method or thunk wrapper (what a method *value* such as
+// c.blocksBelowTip is) by the method it forwards to.
+func unwrapBound(g *ssa.Function) *ssa.Function {
+	if g == nil || g.Synthetic == "" || !(strings.Contains(g.Synthetic, "bound method") || strings.Contains(g.Synthetic, "thunk")) {
+		return g
+	}
+	for _, b := range g.Blocks {
+		for _, in := range b.Instrs {
+			if call, ok := in.(ssa.CallInstruction); ok {
+				if f := call.Common().StaticCallee(); f != nil {
+					return f
+				}
+			}
+		}
+	}
+	return g
+}
+
 // isAppBoundary: the application (ABI) side is a separate component reached
 // over IPC or an in-process handler; its waits do not depend on engine locks.
 // Calls into it under a lock are counted in evidence, not followed.
@@ -552,6 +570,7 @@ func (la *lockAnalysis) analyse(fn *ssa.Function) (reports []LockReport, orderEd
 						args = append(args, tb.of(a, 0))
 					}
 					for _, g := range callees {
+						g = unwrapBound(g)
 						if !IsOwn(g) || isAppBoundary(g) {
 							continue
 						}
@@ -567,9 +586,21 @@ func (la *lockAnalysis) analyse(fn *ssa.Function) (reports []LockReport, orderEd
 					}
 				}
 			}
+			// a call of a function *value* (a callback parameter, a stored closure): the callee's
+			// lock paths are relative to what the value captured, which cannot be expressed in this
+			// function's vocabulary — the mutex is then identified by its (type, field) alone
+			viaFuncValue := !call.Common().IsInvoke() && call.Common().StaticCallee() == nil
+			if _, isBuiltin := call.Common().Value.(*ssa.Builtin); isBuiltin {
+				viaFuncValue = false
+			}
 			for _, a := range acqs {
 				for _, k := range held.keys() {
 					h := held[k]
+					if viaFuncValue && h.Path != a.Ref.Path && h.TypeID == a.Ref.TypeID && !strings.HasPrefix(h.TypeID, "local:") && !strings.HasPrefix(h.TypeID, "?") {
+						add(LockReport{Rule: "R1", Fn: fn, Site: la.p.InstrPos(call), Held: h, What: a.Ref.String(), Chain: a.Chain,
+							Construct: FuncKey(fn) + " ⇒ callback ⇒ " + a.Chain[len(a.Chain)-1] + ": " + a.Ref.String() + " under " + h.String()})
+						continue
+					}
 					if h.Path == a.Ref.Path {
 						add(LockReport{Rule: "R1", Fn: fn, Site: la.p.InstrPos(call), Held: h, What: a.Ref.String(), Chain: a.Chain,
 							Construct: FuncKey(fn) + " ⇒ " + a.Chain[len(a.Chain)-1] + ": " + a.Ref.String() + " under " + h.String()})
